@@ -121,6 +121,7 @@ type undoRec struct {
 }
 
 type Engine struct {
+	lockBusy bool // see verifLockBusy
 	sh      *Shared
 	prog    *ssa.Program
 	sol     *Solver
@@ -780,6 +781,7 @@ func (e *Engine) runPath(entry *ssa.Function) {
 	e.vfs = nil
 	e.schedForks = 0
 	e.schedOff = false
+	e.lockBusy = false
 	e.permOff = false
 	e.permForks = 0
 	e.sol.Push()
